@@ -232,7 +232,11 @@ def gen_worker(arg):
         c = REGISTRY[key]
         if len(arg) > 3 and arg[3] == 'candidates':
             return {'candidates': repair_candidates(c)}
-        if len(arg) > 3:
+        if len(arg) > 3 and arg[3][0] == 'dropcuts':
+            # stepping stones are hints: a proof attempt without some of them is still a proof attempt
+            c.cuts = [ct for ct in c.cuts if ct[1] not in arg[3][1]]
+            c.using = {k: v for k, v in c.using.items() if k not in arg[3][1]}
+        elif len(arg) > 3:
             a_, b_ = arg[3]
             for lc in c.loops.values():
                 lc['invariant'] = [rename_in_spec(e, a_, b_) if isinstance(e, str) else (e[0], rename_in_spec(e[1], a_, b_)) + tuple(e[2:]) for e in lc.get('invariant', [])]
@@ -427,10 +431,17 @@ class Checker:
                 continue
             key = tuple(func.split('::'))
             c = REGISTRY.get(key)
-            if c is None or not c.loops:
+            if c is None:
                 continue
-            with ProcessPoolExecutor(max_workers=1) as ex:
-                cands = list(ex.map(gen_worker, [(self.prop, key, front.REPO, 'candidates')]))[0].get('candidates', [])
+            cands = []
+            bad_names = set(o.name for o in bad)
+            if all(o.kind == 'hint' for o in bad):
+                # only stepping stones fail (e.g. two statements were swapped and a stone is now stated one statement too early): try the
+                # proof without them; if the postconditions do not need them the function is proved, otherwise they fail and are reported
+                cands.append(('dropcuts', sorted(set(o.label for o in bad))))
+            if c.loops:
+                with ProcessPoolExecutor(max_workers=1) as ex:
+                    cands += list(ex.map(gen_worker, [(self.prop, key, front.REPO, 'candidates')]))[0].get('candidates', [])
             for a_, b_ in cands:
                 with ProcessPoolExecutor(max_workers=1) as ex:
                     out = list(ex.map(gen_worker, [(self.prop, key, front.REPO, (a_, b_))]))[0]
@@ -457,8 +468,9 @@ class Checker:
                     self.results[i] = kept_res.get(id(o)) or new_res[id(o)]
                 for f in self.functions:
                     if f.get('function') == func:
-                        f['proof_repaired'] = 'loop invariants restated with `%s` in place of `%s` (the changed text carries the loop result in a renamed variable); all %d obligations regenerated and discharged' % (b_, a_, len(new))
-                self.repaired = getattr(self, 'repaired', []) + ['%s: invariants restated with `%s` for `%s`' % (func, b_, a_)]
+                        f['proof_repaired'] = ('proved without the stepping stones %s (they no longer hold where they were stated); all %d obligations regenerated and discharged' % (b_, len(new))) if a_ == 'dropcuts' else \
+                            'loop invariants restated with `%s` in place of `%s` (the changed text carries the loop result in a renamed variable); all %d obligations regenerated and discharged' % (b_, a_, len(new))
+                self.repaired = getattr(self, 'repaired', []) + [('%s: proved without the stepping stones %s' % (func, b_)) if a_ == 'dropcuts' else '%s: invariants restated with `%s` for `%s`' % (func, b_, a_)]
                 break
 
     # -- verdicts -----------------------------------------------------------------------------------------
@@ -587,6 +599,16 @@ class Checker:
                 continue
             obs = groups[name]
             sts = [self.results[o.uid]['status'] for o in obs]
+            only_stones = self.function_changed(obs[0].func) and all(groups[n_][0].kind == 'hint' for n_ in self.failed_all if groups[n_][0].func == obs[0].func)
+            if only_stones:
+                # on a CHANGED function nothing but stepping stones of the proof script fails (e.g. two statements were swapped and a stone is now
+                # stated one statement too early), every obligation that comes from the property or from safety is discharged relative to them, and
+                # the proof does not go through without them either (repair pass): the proof script does not fit this text. A stepping stone is
+                # a hint of mine, not a clause of the property; without a failing input this is no evidence against the property: the function
+                # counts as NOT proved and the bounded stand-in decides
+                if not any(f_.get('function') == obs[0].func for f_ in self.fallbacks):
+                    self.fallbacks.append({'function': obs[0].func, 'reason': 'changed function: only stepping stones of the proof script fail (%s); not proved on this text: bounded stand-in decides' % sorted(set(groups[n_][0].label for n_ in self.failed_all if groups[n_][0].func == obs[0].func))[:3]})
+                continue
             if self.function_changed(obs[0].func) and self.hints_detached(obs[0].func):
                 # the function was rewritten so that the proof's stepping stones no longer attach: the proof script does not fit this
                 # text any more; without a failing input this is not evidence against the property: the bounded stand-in decides
